@@ -37,6 +37,40 @@ H1_CONFORMING = {"L1", "L2", "L3", "PB"}
 LAGRANGE_DEG = {"L1": 1, "L2": 2, "L3": 3}
 
 
+# what every evaluator implements (SpaceTags bits: value 1, grad 2, hess 4, ref_value 8, ref_grad 16, ref_hess 32)
+CAPS = {"L1": 27, "L2": 63, "L3": 63, "PB": 63, "B2": 63, "CR": 27, "D1": 27, "D0": 1}
+# the config masks the harness instantiates (all subsets of {value,grad,hess}, all of {ref_*}, some mixed, everything)
+EVCFG_MASKS = [1, 2, 3, 4, 5, 6, 7, 8, 16, 24, 32, 40, 48, 56, 17, 12, 34, 63]
+
+
+def masks_of(fam):
+    return [mk for mk in EVCFG_MASKS if mk & CAPS[fam] == mk]
+
+
+def mask_width(mask, dim):
+    return ((1 if mask & 1 else 0) + (dim if mask & 2 else 0) + (dim * dim if mask & 4 else 0)
+            + (1 if mask & 8 else 0) + (dim if mask & 16 else 0) + (dim * dim if mask & 32 else 0))
+
+
+def mask_slices(mask, dim):
+    """bit -> (offset, length) inside one basis function's block"""
+    out, off = {}, 0
+    for bit, ln in ((1, 1), (2, dim), (4, dim * dim), (8, 1), (16, dim), (32, dim * dim)):
+        if mask & bit:
+            out[bit] = (off, ln)
+            off += ln
+    return out
+
+
+def nonaffine_mesh(rng, kind, dim, max_cells):
+    """hypercubes: a mesh whose cell 0 is genuinely bilinear / trilinear; simplices are always affine"""
+    for _ in range(40):
+        m = M.random_mesh(rng, kind, dim, mode="general", max_cells=max_cells)
+        if kind == "S" or dim == 1 or not M.hess_zero(kind, dim, m.cell_verts(dim, 0)):
+            return m
+    return m
+
+
 def dofs_per_dim(fam, kind, dim):
     """number of node functionals attached to an entity of dimension d (mathematical definition of the element)"""
     if fam == "L1":
@@ -139,17 +173,35 @@ def gen_case(rng, tier):
     m = M.random_mesh(rng, kind, dim, max_cells=(2 if big else (6 if dim == 3 else None)))
     r = rng.random()
     nc = m.num(dim)
-    if r < 0.07:
+    if r < 0.05:
         return "vol - %s" % m.fmt()
-    if r < 0.12:
-        c = rng.randrange(nc)
-        return "unmap - %s %d %s" % (m.fmt(), c, fmt_pt(rand_interior_point(rng, kind, dim)))
-    if r < 0.22:
+    if r < 0.09:
+        return "unmap - %s %d %s" % (m.fmt(), rng.randrange(nc), fmt_pt(rand_interior_point(rng, kind, dim)))
+    if r < 0.30:
+        # evaluation with a config mask (poison 0xFF / 0x00); cell 0 of a non-affine mesh half of the time
+        if kind == "H" and dim > 1 and rng.random() < 0.6:
+            m = nonaffine_mesh(rng, kind, dim, 2)
+            c = 0
+        else:
+            c = rng.randrange(nc)
+        return "evcfg %s %s %d %s %d %d" % (fam, m.fmt(), c, fmt_pt(rand_interior_point(rng, kind, dim)),
+                                           rng.choice(masks_of(fam)), rng.choice([255, 0]))
+    if r < 0.38:
+        if kind == "H" and dim > 1 and rng.random() < 0.6:
+            m = nonaffine_mesh(rng, kind, dim, 2)
+            c = 0
+        else:
+            c = rng.randrange(nc)
+        return "trcfg - %s %d %s %d %d" % (m.fmt(), c, fmt_pt(rand_interior_point(rng, kind, dim)),
+                                          2 * rng.randint(1, 63), rng.choice([255, 0]))
+    if r < 0.385:
+        return "vol - %s" % m.fmt()
+    if r < 0.46:
         return "dofs %s %s" % (fam, m.fmt())
-    if r < 0.45:
+    if r < 0.62:
         c = rng.randrange(nc)
         return "ev %s %s %d %s" % (fam, m.fmt(), c, fmt_pt(rand_ref_point(rng, kind, dim)))
-    if r < 0.55 and fam != "D0":
+    if r < 0.68 and fam != "D0":
         c = rng.randrange(nc)
         pts = [rand_ref_point(rng, kind, dim, inside=False) for _ in range(2)]
         return "ref %s %s %d %d %s" % (fam, m.fmt(), c, len(pts), " ".join(fmt_pt(p) for p in pts))
@@ -206,6 +258,19 @@ def fixed_cases():
                             qs.append((cc, M.facet_point_in_cell(m, fc, cc, s)))
                     out.append("interp %s %s %s %d %s" % (fam, m.fmt(), fmt_poly(p), len(qs),
                                                           " ".join("%d %s" % (cc, fmt_pt(x)) for cc, x in qs)))
+        # every config mask of every family on a genuinely non-affine (hypercube) cell, both poison patterns
+        for fam in fams:
+            m = nonaffine_mesh(rng, kind, dim, 2)
+            out.append("caps %s %s" % (fam, m.fmt()))
+            x = rand_interior_point(rng, kind, dim)
+            for k, mk in enumerate(masks_of(fam)):
+                if fam == "L3" and dim == 3 and mk not in (2, 4, 6, 16, 32, 63):
+                    continue
+                out.append("evcfg %s %s 0 %s %d %d" % (fam, m.fmt(), fmt_pt(x), mk, 255 if k % 2 == 0 else 0))
+        m = nonaffine_mesh(rng, kind, dim, 2)
+        x = rand_interior_point(rng, kind, dim)
+        for k, mk in enumerate([2, 4, 8, 16, 32, 64, 24, 48, 96, 80, 126]):
+            out.append("trcfg - %s 0 %s %d %d" % (m.fmt(), fmt_pt(x), mk, 255 if k % 2 == 0 else 0))
         m = M.random_mesh(rng, kind, dim, mode="general", max_cells=4)
         out.append("vol - %s" % m.fmt())
         out.append("unmap - %s %d %s" % (m.fmt(), rng.randrange(m.num(dim)), fmt_pt(rand_interior_point(rng, kind, dim))))
@@ -370,6 +435,107 @@ def oracle_(case, out):
                     return "volume of cell %d is %s, exact %s" % (ci, float(v), float(ex))
             elif v != ex:
                 return "volume of cell %d is %s, exact %s" % (ci, v, ex)
+        return None
+    if c.op == "trcfg":
+        cell = int(c.rest[0])
+        x = [M.pfr(t) for t in c.rest[1:1 + dim]]
+        mask = int(c.rest[1 + dim])
+        verts = m.cell_verts(dim, cell)
+        assert o[0] == "G" and int(o[1]) == mask
+        got = [M.pfr(t) for t in o[2:]]
+        J = M.jac(kind, dim, verts, x)
+        Ji = mat_inv(J)
+        HT = hess_map(kind, dim, verts, x)
+        exp = []
+        names = []
+        if mask & 2:
+            exp += list(M.map_point(kind, dim, verts, x)); names += ["img_point"] * dim
+        if mask & 4:
+            exp += [J[a][k] for a in range(dim) for k in range(dim)]; names += ["jac_mat"] * (dim * dim)
+        if mask & 8:
+            exp += [Ji[a][k] for a in range(dim) for k in range(dim)]; names += ["jac_inv"] * (dim * dim)
+        if mask & 16:
+            exp.append(abs(M.det(J))); names.append("jac_det")
+        if mask & 32:
+            exp += [HT[a][p][q] for a in range(dim) for p in range(dim) for q in range(dim)]; names += ["hess_ten"] * dim ** 3
+        if mask & 64:
+            # second derivatives of the inverse mapping: d2 xhat_k / dx_a dx_b
+            for k in range(dim):
+                for a in range(dim):
+                    for b in range(dim):
+                        exp.append(-sum((Ji[k][mm] * HT[mm][p][q] * Ji[p][a] * Ji[q][b]
+                                         for mm in range(dim) for p in range(dim) for q in range(dim)), Fr(0)))
+            names += ["hess_inv"] * dim ** 3
+        if len(got) != len(exp):
+            return "trafo evaluation with mask %d returned %d numbers, expected %d" % (mask, len(got), len(exp))
+        for k, (g, e) in enumerate(zip(got, exp)):
+            if g != e:
+                return "trafo evaluation with config mask %d: %s entry differs from the exact value (%s vs %s)" % (
+                    mask, names[k], g, e)
+        return None
+    if c.op == "caps":
+        assert o[0] == "K"
+        adv, dl = int(o[1]), int(o[2])
+        if dl != CAPS[fam]:
+            return "evaluator of %s implements the tags %d, expected %d" % (fam, dl, CAPS[fam])
+        if adv & dl != dl:
+            return "advertised eval_caps %d do not include what the evaluator delivers (%d)" % (adv, dl)
+        return None
+    if c.op == "evcfg":
+        cell = int(c.rest[0])
+        x = [M.pfr(t) for t in c.rest[1:1 + dim]]
+        mask = int(c.rest[1 + dim])
+        verts = m.cell_verts(dim, cell)
+        assert o[0] == "C"
+        nl = int(o[1])
+        assert int(o[2]) == mask
+        w = mask_width(mask, dim)
+        r = [M.pfr(t) for t in o[3:3 + nl * w]]
+        p = 3 + nl * w
+        assert o[p] == "F"
+        fullm = int(o[p + 1])
+        if fullm != CAPS[fam]:
+            return "full mask %d, expected %d" % (fullm, CAPS[fam])
+        fw = mask_width(fullm, dim)
+        full = [M.pfr(t) for t in o[p + 2:p + 2 + nl * fw]]
+        if len(full) != nl * fw or len(r) != nl * w:
+            return "malformed evcfg output"
+        sl, fsl = mask_slices(mask, dim), mask_slices(fullm, dim)
+        tagname = {1: "value", 2: "grad", 4: "hess", 8: "ref_value", 16: "ref_grad", 32: "ref_hess"}
+        for i in range(nl):
+            for bit, (off, ln) in sl.items():
+                a = r[i * w + off:i * w + off + ln]
+                b = full[i * fw + fsl[bit][0]:i * fw + fsl[bit][0] + ln]
+                if a != b:
+                    return ("config mask %d: %s of basis function %d differs from the full-mask evaluation "
+                            "(%s vs %s)" % (mask, tagname[bit], i, [str(z) for z in a], [str(z) for z in b]))
+        # the full evaluation itself: exact derivatives (Lagrange families), partition of unity
+        rows = [tuple(full[i * fw:(i + 1) * fw]) for i in range(nl)]
+        if fam in LAGRANGE_DEG:
+            nodes, basis = lagrange_dual_basis(kind, dim, LAGRANGE_DEG[fam])
+            exp = []
+            for b in basis:
+                gp = [p_deriv(b, k) for k in range(dim)]
+                rg = [p_eval(g, x) for g in gp]
+                rh = [[p_eval(p_deriv(gp[a], bb), x) for bb in range(dim)] for a in range(dim)]
+                g, H = phys_derivs(kind, dim, verts, x, rg, rh)
+                val = p_eval(b, x)
+                row = []
+                if fullm & 1:
+                    row.append(val)
+                if fullm & 2:
+                    row += g
+                if fullm & 4:
+                    row += [H[a][bb] for a in range(dim) for bb in range(dim)]
+                if fullm & 8:
+                    row.append(val)
+                if fullm & 16:
+                    row += rg
+                if fullm & 32:
+                    row += [rh[a][bb] for a in range(dim) for bb in range(dim)]
+                exp.append(tuple(row))
+            if sorted(exp) != sorted(rows):
+                return "full-mask evaluation is not the nodal basis differentiated exactly"
         return None
     if c.op == "unmap":
         # double precision (InverseMapping cannot be constructed at Q): supporting evidence with a tolerance
@@ -560,10 +726,15 @@ def nontrivial(case):
     """non-trivial = a re-oriented entity (stored orientation differs from the cell's local one) on a mesh for an
     element with DOFs on edges/faces, or a non-affine cell, or >= 2 cells; trafo ops: always"""
     t = case.split(None, 2)
-    if t[0] in ("vol", "unmap"):
+    if t[0] in ("vol", "unmap", "caps"):
         return True
     c = parse_case(case)
     m = c.mesh
+    if t[0] in ("evcfg", "trcfg"):
+        # a proper sub-mask, or a non-affine cell
+        mask = int(c.rest[1 + m.dim])
+        full = CAPS.get(c.fam, 126)
+        return mask != full or (m.kind == "H" and m.dim > 1)
     if m.dim == 1:
         return m.num(1) >= 2
     if multi_dof(c.fam, m.kind, m.dim):
@@ -577,7 +748,13 @@ def describe(case):
     c = parse_case(case)
     m = c.mesh
     keys.append("cells:%d" % m.num(m.dim))
-    if m.dim >= 2 and t[0] not in ("vol", "unmap"):
+    if t[0] in ("evcfg", "trcfg"):
+        keys.append("%s-mask:%s" % (t[0], c.rest[1 + m.dim]))
+        keys.append("poison:%s" % c.rest[2 + m.dim])
+        cell = int(c.rest[0])
+        if m.kind == "H" and m.dim >= 2:
+            keys.append("%s-cell:%s" % (t[0], "affine" if M.hess_zero(m.kind, m.dim, m.cell_verts(m.dim, cell)) else "non-affine"))
+    if m.dim >= 2 and t[0] not in ("vol", "unmap", "trcfg", "caps"):
         r = reoriented(m)
         keys.append("reoriented-subentities:%s" % ("0" if r == 0 else ("1-3" if r <= 3 else ">=4")))
         if t[1] == "L3":
@@ -595,7 +772,24 @@ def describe(case):
 
 def signature(case, out, why):
     t = case.split()
+    if t[0] == "caps" and t[1] == "D1" and t[2] == "S" and why and why.startswith("advertised eval_caps"):
+        return "c15-edge:F1"
     return "%s:%s:%s%s:%s" % (t[0], t[1], t[2], t[3], (why or "")[:40])
+
+
+def install_known_findings():
+    """known findings of this property live in known_findings_C15.json (same format and matching rule as the shared
+    KNOWN_FINDINGS.json: property + signature, status open)"""
+    path = os.path.join(vlib.VERIF, "known_findings_C15.json")
+    orig = vlib.load_known
+
+    def load(prop):
+        lst = list(orig(prop))
+        if prop == PROP and os.path.exists(path):
+            data = json.load(open(path))
+            lst += [e for e in data.get("findings", []) if e.get("property") == prop and e.get("status") == "open"]
+        return lst
+    vlib.load_known = load
 
 
 def canon(out):
@@ -616,20 +810,28 @@ def main(argv):
               "broken": "harness c15 does not compile against the current tree"}]
         return vlib.finish(PROP, args.tier, args.seed, t0, None, [], [], v, [])
     # T1: regenerate the basis tables from the real evaluators (content-identical files are not rewritten)
-    gen_err = None
+    gen_err, tables = None, {}
     try:
         tables, files = basis_probe.regenerate(binary, random.Random(args.seed))
     except Exception as e:  # the translator refuses: evaluator no longer polynomial / probe failed
         gen_err = str(e)
     lean = None if args.no_lean else vlib.lean_check(PROP, leanchecker=(args.tier == "thorough"))
+    tables = tables if gen_err is None else {}
     if gen_err is not None:
-        v = [{"property": PROP, "kind": "translator-failure", "detail": gen_err, "failing_input": None,
-              "broken": "T1 translator basis_probe: " + gen_err[:300]}]
-        return vlib.finish(PROP, args.tier, args.seed, t0, lean, [], [], v, [])
+        # the T1 translator refuses (an evaluator crashed / is no longer a polynomial of the expected degree): this is
+        # reported like a broken proof obligation, and the correspondence stream still runs (against the last generated
+        # tables) so that a concrete failing input is searched for
+        vlib.log("[T1] translator failure: " + gen_err[:300])
+        if lean is None:
+            lean = vlib.LeanResult()
+        lean.ok = False
+        lean.errors.append("T1 translator basis_probe: " + gen_err[:1500])
+        lean.failed_names.append("T1 translator basis_probe (Gen/Basis*.lean could not be regenerated)")
     if args.replay:
         cases = [json.load(open(args.replay))["input"]]
     else:
         cases = CORPUS + fixed_cases() + gen_cases(rng, 1500 if args.tier == "quick" else 15000, args.tier)
+    install_known_findings()
     st = vlib.Stream("fe", cases, [binary], vlib.driver_cmd(PROP), oracle=oracle, nontrivial=nontrivial,
                      describe=describe, signature=signature, canon=canon,
                      model_filter=lambda case: not case.startswith("unmap "))
